@@ -5,7 +5,7 @@ use super::{
     TraitHandler,
 };
 use crate::{
-    common::{ident_index::IdentOrIndex, r#type::{dereference, dereference_stars}},
+    common::{ident_index::IdentOrIndex, r#type::{dereference_stars, dereference_target}},
     Trait,
 };
 
@@ -69,7 +69,7 @@ impl TraitHandler for DerefStructHandler {
             };
 
             let ty = &field.ty;
-            let dereference_ty = dereference(ty);
+            let dereference_ty = dereference_target(ty);
 
             target_token_stream.extend(quote!(#dereference_ty));
 
